@@ -8,6 +8,7 @@ ROOT = os.path.dirname(os.path.abspath(__file__))
 sys.path.insert(0, os.path.join(ROOT, 'engine'))
 sys.path.insert(0, ROOT)
 REPO = os.environ.get('VERIF_REPO', '/repo')
+OUT = os.environ.get('VERIF_OUT', ROOT)   # evidence/ and replay/ are written under OUT (only overridden when testing seeded changes)
 CLANG_FLAGS = ['-std=c++20', '-I' + REPO + '/include', '-I' + REPO, '-I' + ROOT + '/harness/include', '-I' + ROOT + '/harness',
                '-O1', '-fno-inline', '-fno-vectorize', '-fno-slp-vectorize', '-fno-unroll-loops', '-fno-builtin',
                '-DVERIF_REPO="' + REPO + '"', '-S', '-emit-llvm', '-w']
@@ -15,12 +16,12 @@ CLANG_FLAGS = ['-std=c++20', '-I' + REPO + '/include', '-I' + REPO, '-I' + ROOT 
 class Job:
     def __init__(s, name, unit, entry, args=(), merge=(), reach=(), bounds='', engine='S', timeout=600, check_ub=True,
                  enum_cap=64, max_paths=200000, max_steps=5_000_000, kf=None, native=True, solver_timeout_ms=120000,
-                 expect_violation=None, extra_units=(), cbmc=None, defines=(), findings=()):
+                 expect_violation=None, extra_units=(), cbmc=None, defines=(), findings=(), redirect=None):
         s.name = name; s.unit = unit; s.entry = entry; s.args = list(args); s.merge = list(merge); s.reach = list(reach)
         s.bounds = bounds; s.engine = engine; s.timeout = timeout; s.check_ub = check_ub; s.enum_cap = enum_cap
         s.max_paths = max_paths; s.max_steps = max_steps; s.kf = dict(kf or {}); s.native = native
         s.solver_timeout_ms = solver_timeout_ms; s.expect_violation = expect_violation; s.extra_units = list(extra_units)
-        s.cbmc = cbmc; s.defines = list(defines); s.findings = list(findings)
+        s.cbmc = cbmc; s.defines = list(defines); s.findings = list(findings); s.redirect = dict(redirect or {})
 
 def workdir():
     d = os.path.join(ROOT, '.work', str(os.getpid()))
@@ -47,6 +48,7 @@ def run_job_S(job, lls):
         E = symex.Engine(mods, merge=job.merge, check_ub=job.check_ub, timeout_ms=job.solver_timeout_ms,
                          max_steps=job.max_steps, enum_cap=job.enum_cap)
         E.kf_mode = dict(job.kf)
+        symex.set_redirects(E, job.redirect)
         symex.run_ctors(E)
         viols = []; statuses = {}; samples = []; paths = [0]; steps = [0]
         budget_hit = []
@@ -149,6 +151,7 @@ def main():
     only = sys.argv[sys.argv.index('--job') + 1] if '--job' in sys.argv else None
     t0 = time.time()
     wd = workdir()
+    os.environ['VERIF_WORK'] = wd
     rc = 3
     try:
         rc = check(pid, tier, seed, wd, only, t0)
@@ -175,10 +178,15 @@ def check(pid, tier, seed, wd, only, t0):
     if only: alljobs = [j for j in alljobs if only in j.name]
     # compile
     units = {}
-    for j in alljobs:
-        for u in [j.unit] + j.extra_units:
-            key = (u, tuple(j.defines))
-            if key not in units: units[key] = compile_unit(u, wd, j.defines)
+    try:
+        for j in alljobs:
+            for u in [j.unit] + j.extra_units:
+                key = (u, tuple(j.defines))
+                if key not in units: units[key] = compile_unit(u, wd, j.defines)
+    except RuntimeError as e:
+        # the harness no longer compiles against /repo (an internal name it reaches into changed): no verdict, never a VIOLATION
+        print('INCONCLUSIVE harness does not compile against the current tree: %s' % str(e)[-1500:])
+        return 3
     results = []
     nproc = int(os.environ.get('VERIF_JOBS', '16'))
     with ProcessPoolExecutor(max_workers=nproc) as ex:
@@ -198,7 +206,7 @@ def check(pid, tier, seed, wd, only, t0):
     results.sort(key=lambda r: r['job'])
     # triage
     violations = []; known_hits = []; inconclusive = []; unconfirmed = []
-    os.makedirs(os.path.join(ROOT, 'replay'), exist_ok=True)
+    os.makedirs(os.path.join(OUT, 'replay'), exist_ok=True)
     validated = 0; validation_fail = []
     for r in results:
         j = r['_job']
@@ -218,7 +226,7 @@ def check(pid, tier, seed, wd, only, t0):
                     if b:
                         nr = native_run(b, j.entry, j.args, v['model'], wd, '%s_%d' % (j.name.replace('/', '_'), n))
                         conf = native_confirms(nr, v)
-                rp = os.path.join(ROOT, 'replay', '%s_%s_%d.json' % (pid, j.name.replace('/', '_').replace('@', '_'), n))
+                rp = os.path.join(OUT, 'replay', '%s_%s_%d.json' % (pid, j.name.replace('/', '_').replace('@', '_'), n))
                 json.dump({'property': pid, 'job': j.name, 'unit': j.unit, 'entry': j.entry, 'args': j.args, 'defines': j.defines,
                            'kind': v['kind'], 'msg': v['msg'], 'model': v.get('model'), 'stack': v.get('stack'),
                            'native': nr, 'native_confirms': conf, 'cbmc_trace': v.get('trace')}, open(rp, 'w'), indent=1)
@@ -243,8 +251,8 @@ def check(pid, tier, seed, wd, only, t0):
                     else: validation_fail.append({'job': j.name, 'sample': smp, 'native': nr})
     for r in results: r.pop('_job', None)
     ev = evidence(pid, tier, seed, results, violations, known_hits, inconclusive, unconfirmed, validated, validation_fail, time.time() - t0, mod)
-    os.makedirs(os.path.join(ROOT, 'evidence'), exist_ok=True)
-    json.dump(ev, open(os.path.join(ROOT, 'evidence', pid + '.json'), 'w'), indent=1, default=str)
+    os.makedirs(os.path.join(OUT, 'evidence'), exist_ok=True)
+    json.dump(ev, open(os.path.join(OUT, 'evidence', pid + '.json'), 'w'), indent=1, default=str)
     for fid, r in known_hits:
         print('KNOWN-FINDING: property=%s %s (%s)' % (pid, known_ids[fid].get('what', fid), fid))
     for r, v, rp in unconfirmed:
